@@ -276,6 +276,10 @@ hx_process(char *line)
             struct itimerval it = { { 0, 0 }, { 0, 0 } };
             setitimer(ITIMER_REAL, &it, NULL);
         }
+        if (json_object_get(args, "rand_fail") && json_is_object(res)) {
+            extern size_t hx_rand_last_calls;
+            json_object_set_new(res, "rand_calls", json_integer((json_int_t) hx_rand_last_calls));
+        }
         if (timed && json_is_object(res))
             json_object_set_new(res, "ms", json_integer((json_int_t) (now_ms() - t0)));
         if (leaked != 0 && json_is_object(res))
